@@ -515,9 +515,14 @@ def _resize_discr(discr, newshp, offset, discr_kwargs):
             if off is None:
                 num_r = n_diff // 2
                 num_l = n_diff - num_r
-            else:
+            elif n_diff >= 0:
+                # `off` cells are added to the left
                 num_r = n_diff - off
                 num_l = off
+            else:
+                # `off` cells are removed from the left
+                num_r = n_diff + off
+                num_l = -off
         else:
             num_l, num_r = 0, 0
 
